@@ -25,7 +25,7 @@
      missing / extra entries and shared blobs); the executable form of the statement is evaluated
      by the check on every generated case, on the model and on the real code. *)
 From Verif.Base Require Import Tactics.
-From Verif.C14 Require Import Model Extracted Witness Proofs Proofs2 Proofs3 Exact1 Exact2 Exact3 Exact4 Exact5 Exact6 Exact7.
+From Verif.C14 Require Import Model Extracted Witness Proofs Proofs2 Proofs3 Exact1 Exact2 Exact3 Exact4 Exact5 Exact6 Exact7 Exact8.
 Local Open Scope N_scope.
 
 (* No path outside the destination — nor the destination root itself — is created, modified or
@@ -214,3 +214,28 @@ Proof. exact existing_file_exact. Qed.
 Print Assumptions restore_exact_existing_file_partial.
 Example existing_file_hyps : length [1%N; 2%N; 9%N; 9%N] = blen [kA; kB].
 Proof. reflexivity. Qed.
+
+(* The node stream of a tree whose visited names are single normal components (nnb) is the
+   pre-order flattening of the tree — for every code configuration. *)
+Theorem node_stream_is_flattening : forall c roots,
+  forallb nnb roots = true -> stream c roots = map toO (flat_list [] roots).
+Proof. exact stream_flat. Qed.
+Print Assumptions node_stream_is_flattening.
+
+(* restore_exact_fresh_dest stated on the tree: names single normal components, the flattening
+   satisfies nodes_ok (unique paths = distinct sibling names; prefixes are directories by
+   construction; index consistency), nothing in the destination at a snapshot path. *)
+Theorem restore_exact_fresh_dest_tree : forall o droot roots s,
+  forallb nnb roots = true -> nodes_ok (flat_list [] roots) -> dirs_ok droot s ->
+  (forall x, In x (flat_list [] roots) -> fs_get s (Pn droot x) = None) ->
+  r_out (restore code_cfg o droot roots s) = OOk /\
+  (forall x, In x (flat_list [] roots) -> good droot (r_fs (restore code_cfg o droot roots s)) x) /\
+  (forall q e, strictly_under droot q = true -> fs_get s q = Some e ->
+     if o_delete o then fs_get (r_fs (restore code_cfg o droot roots s)) q = None
+     else fs_get (r_fs (restore code_cfg o droot roots s)) q = Some e).
+Proof. exact restore_exact_fresh_dest_tree_lemma. Qed.
+Print Assumptions restore_exact_fresh_dest_tree.
+Example restore_exact_fresh_dest_tree_hyps :
+  forallb nnb snapY = true /\ flat_list [] snapY = nodesY /\ nodes_ok nodesY /\ dirs_ok droot0 worldY /\
+  (forall x, In x nodesY -> fs_get worldY (Pn droot0 x) = None).
+Proof. exact (conj (proj1 exampleY_tree) (conj (proj2 exampleY_tree) (proj2 exampleY_hyps))). Qed.
